@@ -10,12 +10,37 @@ EXPLANATION = (
     "`key` operation and epoch and threshold each as their own `ad` operation, so no operation mixes two "
     "variable-length inputs; (R3) the threshold reaches its operation through a full-width u32 encoding with no "
     "narrowing cast; (R4) the share's evaluation point is drawn from the OS generator on every path, is the only random atom "
-    "in a share, and is not provably narrower than 16 random bytes (no constant sub-window fill, no narrowing cast); (R5) both client APIs take key seed and tag from the same derived elements.  NOT decided: collision resistance of Strobe, distinctness of OS-random points.")
+    "in a share, and is not provably narrower than 16 random bytes (no constant sub-window fill, no narrowing cast); (R5) both client APIs take key seed and tag from the same derived elements.  NOT decided: collision resistance of Strobe, distinctness of OS-random points."
+    "  The key operation must absorb the complete measurement (not a window of it).")
 ASSUMPTIONS = ["Strobe operations are modelled as one-way accumulators (sv/models.py); Strobe's framing of "
                "separate operations is trusted", "rand::rngs::OsRng is the OS generator"]
 TRUSTED = []
 
 MG = "sta_rs::MessageGenerator"
+
+
+def whole_value(t, path):
+    """t is the complete value at `path` (borrowed / copied as a whole), not a window or a transformation of it: two
+    measurements that differ outside a window must not be absorbed as the same key"""
+    n = 0
+    while Q.is_t(t) and t.op in ("refv", "deref", "conv", "copied", "cloned", "collected") and t.args and n < 12:
+        t = t.args[0]
+        n += 1
+    return Q.is_t(t) and t.op in ("param", "field", "payload") and Q.path_of(t) == path
+
+
+def measurement_keyed_whole(ctx, rule):
+    """the per-measurement randomness (hence tag and key) is keyed by the WHOLE measurement (shared: C04.R2, C18.R11 - a
+    truncated key puts different measurements into one bucket)"""
+    ix = fidx(ctx, MG, "x")
+    X = "self.%d.0" % ix
+    eng, ret, st, fr = ctx.root("sta_rs::MessageGenerator::sample_local_randomness")
+    out = st.get(("param", "out")) if st else None
+    tr = Q.trace_of(out.args[1]) if out is not None and out.op == "owf" else []
+    keyops = [d for k, d, _ in Q.flat_ops(tr) if k == "key"]
+    ctx.add(rule, "sample_local_randomness#keyed-by-whole-measurement", len(keyops) == 1 and whole_value(keyops[0], X),
+            "the local randomness must be keyed by the complete measurement bytes; key data %s" % [S(d, 5) for d in keyops],
+            ctx.fn("sta_rs::MessageGenerator::sample_local_randomness").loc, sample=[S(d, 5) for d in keyops])
 
 
 def run(ctx):
@@ -49,7 +74,7 @@ def run(ctx):
     keyops = [(k, d) for k, d, _ in flat if k == "key"]
     adops = [(k, d, rep) for k, d, rep in flat if k == "ad"]
     # measurement is absorbed by its own key operation
-    okk = len(keyops) == 1 and Q.params(Q.leaves(keyops[0][1])) == {X}
+    okk = len(keyops) == 1 and Q.params(Q.leaves(keyops[0][1])) == {X} and whole_value(keyops[0][1], X)
     ctx.add("C04.R2", "sample_local_randomness#key-op", okk,
             "the measurement must enter the transcript as the data of one `key` operation of its own; found %s"
             % [S(d, 5) for _, d in keyops], at, sample=[S(d, 6) for _, d in keyops])
